@@ -47,6 +47,29 @@ prop("C14",
      )
 
 
+# ---------------------------------------------------------------------------------------------
+# C15 Schema.Check
+prop("C15",
+     family="check",
+     mc=lambda tier: [("MC_Check", "MC_Check_quick.cfg")] + _t(tier, [], [("MC_Check", "MC_Check_thorough.cfg")]),
+     gen=lambda tier: [("MC_Check", "Gen_Check_quick.cfg")] + _t(tier, [], [("MC_Check", "Gen_Check_thorough.cfg")]),
+     driver=lambda tier, seed, gen, out: ["check", "-gen", gen, "-out", out, "-seed", str(seed)] +
+     _t(tier, ["-sample", "30000", "-random", "5000"], ["-random", "200000"]),
+     trace=("Trace_Schema", "Trace_Schema.cfg"),
+     required=["Check:clean", "Check:errors"],
+     level_text="TLC checks an operational transcription of the Check loop against the declarative set of offending "
+                "relationships over every schema of a bounded universe (130k two-type schemas with two relationship "
+                "names; 52k three-type schemas in the thorough tier), emits each of those schemas, and the driver "
+                "builds it as a literal jsonapi.Schema and calls the real Check; TLC's monitor judges the number of "
+                "errors, that the schema is unchanged and that nothing panicked. Seeded random 3-5 type schemas "
+                "with injected single faults are judged by the same monitor.",
+     level_note="Bounded universe of names; Check's messages are not interpreted, only their number (>= number of "
+                "offending relationships, = 0 iff none). Trusted: TLC, the Go projection of Schema.Types.",
+     assumptions=["map keys equal the relationship's FromName (schemas as the editing API produces them)",
+                  "error wording is not part of the property; only the count is judged"],
+     )
+
+
 def run(pid, tier, seed):
     P = PROPS[pid]
     if "run" in P:
@@ -65,13 +88,17 @@ def run_family(pid, tier, seed):
             mcs.append(V.model_check(scr, mod, cfg, coverage=(tier == "thorough" and P.get("coverage", True))))
         gen_path = ""
         if P.get("gen"):
-            mod, cfg = P["gen"](tier)
-            gen_path = V.generate(scr, mod, cfg, "gen.out")
+            g = P["gen"](tier)
+            if isinstance(g, tuple):
+                g = [g]
+            paths = [V.generate(scr, mod, cfg, "gen-%d.out" % i) for i, (mod, cfg) in enumerate(g)]
+            gen_path = ",".join(paths)
         evdir = scr.sub("ev")
         env = dict(VERIF_SEED=str(seed), VERIF_TIER=tier)
         V.run_driver(drv, P["driver"](tier, seed, gen_path, evdir), env=env)
-        if gen_path:
-            os.remove(gen_path)
+        for gp in gen_path.split(","):
+            if gp:
+                os.remove(gp)
         stats = json.load(open(os.path.join(evdir, "stats.json")))
         missing = [c for c in P.get("required", []) if stats["classes"].get(c, 0) == 0]
         if missing:
